@@ -71,6 +71,7 @@ def register_in_group(
         pg_ref = pgroup.PluginRef(name=pginfo.name, version=pginfo.version)
 
         is_new = ep_name not in pgroup._ENTRY_POINTS
+        prev_ep = pgroup._ENTRY_POINTS.get(ep_name)
         prev_plugin = pgroup._LOADED_PLUGINS.get(pg_ref)
         pgroup._ENTRY_POINTS[ep_name] = None
         pgroup._LOADED_PLUGINS[pg_ref] = plugin
@@ -89,8 +90,12 @@ def register_in_group(
                 pgroup._VERSIONS[pg_ref.name].remove(pg_ref)
                 if not pgroup._VERSIONS[pg_ref.name]:
                     del pgroup._VERSIONS[pg_ref.name]
-            elif prev_plugin is not None:  # keep what was registered before
-                pgroup._LOADED_PLUGINS[pg_ref] = prev_plugin
+            else:  # keep what was registered before (maybe not loaded yet)
+                pgroup._ENTRY_POINTS[ep_name] = prev_ep
+                if prev_plugin is not None:
+                    pgroup._LOADED_PLUGINS[pg_ref] = prev_plugin
+                else:
+                    del pgroup._LOADED_PLUGINS[pg_ref]
             raise
         if not violently:
             eprint(
